@@ -3198,9 +3198,14 @@ class PyCdlib:
         """
         if self.udf_root is None:
             raise pycdlibexception.PyCdlibInvalidInput('Can only specify a UDF path for a UDF ISO')
-        (name_unused, parent) = self._udf_name_and_parent_from_path(utils.normpath(udf_path))
+        (name, parent) = self._udf_name_and_parent_from_path(utils.normpath(udf_path))
         if parent is None or not parent.is_dir():
             raise pycdlibexception.PyCdlibInvalidInput('Can only add a UDF File Identifier to a directory')
+        try:
+            parent.find_file_ident_desc_by_name(name)
+        except pycdlibexception.PyCdlibInvalidInput:
+            return
+        raise pycdlibexception.PyCdlibInvalidInput('Failed adding duplicate name to parent')
 
     def _add_fp(self, fp, length, manage_fp, iso_path, rr_name,
                 joliet_path, udf_path, file_mode, eltorito_catalog):
